@@ -38,7 +38,6 @@ package internal
 //@   ghost assignable bool = false
 //@   requires $C && ce != nil
 //@   requires typeChecked-slice-has-function-and-collection: len(ce.Args) >= 2
-//@   at call compileFunction 1 assume compiled-function-well-formed: implies(ret != nil, len(ret.Inputs) >= 0 && len(ret.Outputs) >= 0)
 //@   at call Elem 1 ghost elemT = ret
 //@   at call AssignableTo 1 pre assert [C14] asks-whether-element-is-assignable-to-parameter: arg0 == elemT && arg1 == fn.Inputs[elemParamPos] && (elemParamPos == 0 || elemParamPos == 1) && elemParamPos == len(fn.Inputs) - 1
 //@   at call AssignableTo 1 ghost asked = true
@@ -66,7 +65,6 @@ package internal
 //@   requires $C && ce != nil
 //@   at call compileMapEnd 1 pre assume typeChecked-mapend-arity: len(arg2.Args) == 1
 //@   requires typeChecked-map-has-function-and-collection: len(ce.Args) >= 2
-//@   at call compileFunction 1 assume compiled-function-well-formed: implies(ret != nil, len(ret.Inputs) >= 0 && len(ret.Outputs) >= 0)
 //@   at call Key 1 ghost keyT = ret
 //@   at call Elem 1 ghost valT = ret
 //@   at call AssignableTo 1 pre assert [C14] asks-whether-key-is-assignable-to-first-parameter: arg0 == keyT && arg1 == fn.Inputs[0] && len(fn.Inputs) == 2
@@ -206,6 +204,8 @@ package internal
 //@   at call Variadic 1 ghost vari = ret
 //@   ensures [C14] an-accepted-function-is-not-variadic: implies(result != nil, !vari)
 //@   at call errf * pre assert [C14] a-function-is-rejected-only-for-one-of-its-reasons: typeof(pure("invoke go/types.Type.Underlying", typ)) != typeid("*go/types.Signature") || vari || (i != 0 && $ISCTX(ptype)) || (i != $NRESULTS - 1 && $ISERR(rtype))
+//@   ensures [C13] an-accepted-function-has-its-signature: implies(result != nil, result.Sig != nil)
+//@   ensures [C13] an-accepted-function-has-well-formed-input-and-output-lists: implies(result != nil, len(result.Inputs) >= 0 && len(result.Outputs) >= 0)
 //@   ensures [C13] signature-is-the-underlying-type-of-the-expression: implies(result != nil, result.Sig == dataof(pure("invoke go/types.Type.Underlying", pure("(*go/types.Info).TypeOf", c.info, expr))))
 
 //@ func (*flow).addPredicateOutput
@@ -256,7 +256,6 @@ package internal
 //@   at store Tasks 1 assert [C10] a-compiled-task-is-appended: len(val) >= 1 && val[len(val) - 1] == t
 //@   at store SliceTasks 1 assert [C10] a-compiled-slice-is-appended: len(val) >= 1 && val[len(val) - 1] == st
 //@   at store MapTasks 1 assert [C10] a-compiled-map-is-appended: len(val) >= 1 && val[len(val) - 1] == mt
-//@   at call compileParallelTasks 1 assume compiled-tasks-are-non-nil: forall(i, int, implies(0 <= i && i < len(ret), ret[i] != nil))
 //@   loop 1 invariant collected-tasks-are-non-nil: $PAROK
 //@   loop 2 invariant [C14] slice-end-with-continue-on-error-reported-so-far: $PAROK && 0 <= idx2 && idx2 <= len(parallel.SliceTasks) && forall(i, int, implies(0 <= i && i < idx2 && parallel.SliceTasks[i].SliceEndFn != nil && parallel.ContinueOnError != nil, rs[i]))
 //@   at call errf 5 ghost rs[idx2] = true
@@ -291,6 +290,8 @@ package internal
 //@ func (*compiler).compileParallelTasks
 //@   option props=[C13]
 //@   requires $C && p != nil && call != nil
+//@   loop 1 invariant [C10,C13] only-compiled-tasks-are-collected: forall(i, int, implies(0 <= i && i < len(tasks), tasks[i] != nil))
+//@   ensures [C10,C13] every-returned-task-is-a-compiled-task: forall(i, int, implies(0 <= i && i < len(result), result[i] != nil))
 
 //@ func checkParallelTask
 //@   option props=[C13]
@@ -330,7 +331,6 @@ package internal
 //@   ensures [C14] a-rejected-directive-part-is-reported: $REPORTED
 //@   modifies go.uber.org_cff_internal.flow.invokeTypes, go.uber.org_cff_internal.flow.invokeTypeCnt, go.uber.org_cff_internal.flow.predicateTypes, go.uber.org_cff_internal.flow.predicateTypeCnt, go.uber.org_cff_internal.compiler.errors, go.uber.org_cff_internal.compiler.taskSerial
 //@   requires $C && flow != nil
-//@   at call compileFunction 1 assume compiled-function-has-a-signature: implies(ret != nil, ret.Sig != nil)
 //@   ghost cf compiledFunc
 //@   at call compileFunction 1 ghost cf = ret
 //@   ensures [C01,C11] task-and-predicate-functions-are-new-distinct-objects: implies(result != nil, result.Function != nil && forall(i, int, implies(0 <= i && i < len(flow.Funcs), flow.Funcs[i] != result.Function)) && implies(result.Predicate != nil, result.Predicate.Function != nil && result.Predicate.Function != result.Function && forall(i, int, implies(0 <= i && i < len(flow.Funcs), flow.Funcs[i] != result.Predicate.Function))))
